@@ -74,6 +74,16 @@ impl BinarySerializer for SerializedEvolutionStep {
     }
 }
 
+/// Writes a `FieldRemoved` step with the field name spelled out in full, whether or not the name
+/// already has a string id in this stream.
+pub(crate) fn serialize_field_removed_spelled_out<Output: BinaryOutput>(
+    field_name: &str,
+    context: &mut SerializationContext<Output>,
+) -> crate::Result<()> {
+    context.write_var_i32(FIELD_REMOVED);
+    field_name.serialize(context)
+}
+
 impl BinaryDeserializer for SerializedEvolutionStep {
     fn deserialize(context: &mut DeserializationContext<'_>) -> crate::Result<Self> {
         let code_or_size = context.read_var_i32()?;
